@@ -94,6 +94,20 @@ func VerifH_C13_KeepAlive() {
 		}
 	}
 	ctx, cancel := context.WithCancel(context.Background())
+	parentDeadline := false
+	if verifChoice("parentdeadline", 2) == 1 {
+		// the parent context ends by its own deadline, possibly in the middle of a ping
+		pd := verifNondetDur("parentdeadline")
+		if verifSymbolic() {
+			verifAssume(verifAnd(pd > 0, pd <= 1<<40))
+		} else if pd <= 0 || pd > 100*1000*1000 {
+			pd = 12 * time.Millisecond
+		}
+		var c2 context.CancelFunc
+		ctx, c2 = context.WithTimeout(ctx, pd)
+		defer c2()
+		parentDeadline = true
+	}
 	cli := &c13Client{maxPings: verifParam("pings", 2), stop: cancel}
 	userCancelled := false
 	if verifChoice("cancel", 2) == 1 {
@@ -108,6 +122,21 @@ func VerifH_C13_KeepAlive() {
 	err := KeepAlive(ctx, cli, interval, timeout)
 	verifReach("returned")
 	verifAssert(err != nil, "C13.returns_only_with_error")
+	tEnd := verifNow()
+	if parentDeadline && ctx.Err() != nil && len(cli.starts) > 0 && !cli.stopped {
+		// the context ended while the last ping had not yet used up its timeout: the context's error, not a ping timeout
+		verifReach("parent-deadline")
+		last := cli.starts[len(cli.starts)-1]
+		within := tEnd-last < int64(timeout)
+		if cli.outcome[len(cli.outcome)-1] == 2 || cli.outcome[len(cli.outcome)-1] == 1 {
+			verifAssert(verifImplies(within, !errors.Is(err, ErrPingTimeout)), "C13.context_end_is_not_ping_timeout")
+			verifAssert(verifImplies(within, errors.Is(err, ctx.Err())), "C13.context_end_reports_context_error")
+		}
+		return
+	}
+	if parentDeadline && ctx.Err() != nil {
+		return
+	}
 	// pings start no earlier than k*interval; exactly k*interval while every earlier ping returned at once
 	allAtOnce := true
 	for k, s := range cli.starts {
@@ -166,4 +195,51 @@ func VerifH_C13_KeepAlive() {
 	case 3:
 		verifReach("ping-error")
 	}
+}
+
+// A peer that answers every PINGREQ at once (the PINGRESP is readable before Transport.Write
+// returns, and the reader goroutine may run first) is never declared silent.
+func VerifH_C13_PromptPeer() {
+	conn := newVconn("c0")
+	conn.yieldAfterWrite = true
+	cli := &BaseClient{Transport: conn}
+	first := true
+	pings := 0
+	var cancel context.CancelFunc
+	conn.onWrite = func(c *vconn, p []byte) error {
+		var resp []byte
+		if first {
+			first = false
+			resp = []byte{0x20, 2, 0, 0}
+		} else if d := refDecode(p); d.ok && d.typ == 12 {
+			pings++
+			resp = []byte{0xD0, 0}
+		}
+		if resp != nil {
+			c.rbuf = append(c.rbuf, resp...)
+			c.nInjected += len(resp)
+			c.signalLocked = true
+		}
+		return nil
+	}
+	_, cerr := cli.Connect(context.Background(), "cid")
+	verifAssert(cerr == nil, "C13.harness_connect")
+	ctx, cancel := context.WithCancel(context.Background())
+	unit := time.Second
+	if !verifSymbolic() {
+		unit = 5 * time.Millisecond
+	}
+	go func() {
+		// stop the experiment after a few intervals
+		time.Sleep(3*unit + unit/2)
+		cancel()
+	}()
+	err := KeepAlive(ctx, cli, unit, unit/2)
+	verifReach("returned")
+	verifAssert(!errors.Is(err, ErrPingTimeout), "C13.prompt_peer_is_not_silent")
+	verifAssert(errors.Is(err, context.Canceled), "C13.prompt_peer_runs_until_cancelled")
+	verifLock()
+	verifAssert(pings >= 3, "C13.pings_sent_every_interval")
+	verifUnlock()
+	cli.Close()
 }
